@@ -77,6 +77,23 @@ def prop_history(ctx, case):
             classes.append('later-record-leading-zero')
         if known_class:
             classes.append('K1-class-passed')
+    # two parses opened on the same tables before the first one is consumed: after consuming both in order the tables
+    # hold exactly the second file's map
+    if case.get('overlap') and len(case['files']) >= 2:
+        from pykdebugparser.kd_buf_parser import KdBufParser
+        sa, sb = case['files'][0], case['files'][1]
+        if not ((sa['recs'] and sa['recs'][0][0] == 0) or (sb['recs'] and sb['recs'][0][0] == 0)):
+            tp2, pn2 = {}, {}
+            p2 = KdBufParser(tp2, pn2)
+            ga = guard(p2.parse, BudgetReader(files.build_v2(sa)))
+            gb = guard(p2.parse, BudgetReader(files.build_v2(sb)))
+            na = len(guard(lambda: list(ga)))
+            nb = len(guard(lambda: list(gb)))
+            etp, epn = files.expected_tables(sb['tm'])
+            if (na, nb) != (len(sa['recs']), len(sb['recs'])) or dict(tp2) != etp or dict(pn2) != epn:
+                raise Violation('overlapping-parses', f'two parses opened before the first was read: {na}/{nb} events, tables {dict(tp2)} / {dict(pn2)}, '
+                                                      f'the second file declares {etp} / {epn}')
+            classes.append('overlapping-parses')
     f0 = case['files']
     nt = any(len(s['tm']) >= 1 and len(s['recs']) >= 2 for s in f0)
     ctx.note(None, nontrivial=nt, classes=set(classes))
@@ -90,7 +107,7 @@ def strategy():
     return n.flatmap(lambda k: st.fixed_dictionaries({
         'apis': st.lists(st.sampled_from(['kdbuf', 'pykdebug', 'kdbuf', 'pykdebug', 'kdbuf-own']), min_size=k, max_size=k),
         'files': st.lists(files.v2_spec(), min_size=k, max_size=k),
-        'stale': st.booleans(),
+        'stale': st.booleans(), 'overlap': st.booleans(),
     }))
 
 
